@@ -84,6 +84,45 @@ def uniqueTypeDefs (T : TsDoc) : Bool :=
 def uniqueTypeNames (T : TsDoc) : Bool := noDup ((typeDefs T).map (·.name))
 def uniqueDirectiveNames (T : TsDoc) : Bool := noDup ((directiveDefs T).map (·.name))
 
+/-! ### name uniqueness, told apart by who wrote the definition (§3.3 / §3.13; the built-in definitions are data of
+    the resolved document, recognisable by the `builtin` flag of the position of their name). These are the
+    statements `check_unique_names` (fix 8cdbacf) is measured against; they are not part of the rule table. -/
+
+/-- (name, position of the name) of every type definition, in document order -/
+def typeIdents (T : TsDoc) : List (Name × Pos) := (typeDefs T).map fun t => (t.name, t.namePos)
+/-- (name, position of the name) of every directive definition, in document order -/
+def directiveIdents (T : TsDoc) : List (Name × Pos) := (directiveDefs T).map fun d => (d.name, d.namePos)
+
+/-- names of the definitions written by the user (name not at a built-in position) -/
+def userNames (l : List (Name × Pos)) : List Name := (l.filter fun x => !x.2.builtin).map (·.1)
+/-- names of the definitions at built-in positions -/
+def builtinNames (l : List (Name × Pos)) : List Name := (l.filter fun x => x.2.builtin).map (·.1)
+
+/-- no two user type definitions (of whatever kinds) share a name -/
+def userTypeNamesUnique (T : TsDoc) : Bool := noDup (userNames (typeIdents T))
+/-- no user type definition takes the name of a built-in-position type definition (`Int`, `Float`, …) -/
+def builtinTypeNamesNotTaken (T : TsDoc) : Bool :=
+  (userNames (typeIdents T)).all fun n => !(builtinNames (typeIdents T)).contains n
+/-- the built-in-position type definitions have pairwise distinct names (a fact about the constant list
+    `generate_builtins()`, not about the user's input) -/
+def builtinTypeNamesDistinct (T : TsDoc) : Bool := noDup (builtinNames (typeIdents T))
+/-- no two user directive definitions share a name (re-declaring a built-in directive is not covered) -/
+def userDirectiveNamesUnique (T : TsDoc) : Bool := noDup (userNames (directiveIdents T))
+
+/-- no built-in-position identifier precedes a user identifier of the same name -/
+def builtinsLast : List (Name × Pos) → Bool
+  | [] => true
+  | x :: xs => (!x.2.builtin || xs.all fun y => !(y.1 == x.1 && !y.2.builtin)) && builtinsLast xs
+
+/-- no built-in-position directive definition precedes a user definition of the same directive (the CLI appends the
+    built-ins after the user's definitions and `resolve_schema_extensions` keeps directive definitions in order) -/
+def builtinDirectivesLast (T : TsDoc) : Bool := builtinsLast (directiveIdents T)
+/-- the built-in-position directive definitions have pairwise distinct names (a fact about `generate_builtins()`) -/
+def builtinDirectiveNamesDistinct (T : TsDoc) : Bool := noDup (builtinNames (directiveIdents T))
+/-- no user directive definition re-declares a built-in-position directive (`@skip`, `@include`, `@deprecated`, …) -/
+def builtinDirectivesNotRedeclared (T : TsDoc) : Bool :=
+  (userNames (directiveIdents T)).all fun n => !(builtinNames (directiveIdents T)).contains n
+
 /-! ### type references are defined -/
 
 /-- every named type referenced inside a type or directive definition — field, argument and input-field
